@@ -36,6 +36,7 @@ type Spec struct {
 	BudgetS         int      `json:"budget_s"`
 	SkipInit        []string `json:"skip_init"`
 	GoAsCall        []string `json:"go_as_call"`
+	ConcretizeDiv   []string `json:"concretize_div"`
 	StubError       []string `json:"stub_error"`
 	RealLogger      bool     `json:"real_logger"`
 	Redirect        map[string]string `json:"redirect"`
@@ -158,7 +159,7 @@ func main() {
 		c := exec.Config{Unwind: pick(sp.Unwind, *unwind), MaxSteps: pick(sp.MaxSteps, *steps), MaxDepth: pick(sp.MaxDepth, *depth),
 			MaxAlloc: pick64(sp.MaxAlloc, *alloc), MaxPaths: sp.MaxPaths, Solver: *solver, TimeoutMs: *timeout, Workers: *workers,
 			AllocViolation: sp.AllocViolation, UnwindViolation: sp.UnwindViolation, PanicOK: sp.PanicOK, Preempt: sp.Preempt,
-			RaceFields: sp.RaceFields, NoOps: sp.NoOps, TimerAnyTime: sp.TimerAnyTime, Verbose: *verbose, DumpDir: *dump, Seed: *seed, SelfCheck: *selfcheck, RestartEvery: *restart, SkipInit: sp.SkipInit, GoAsCall: sp.GoAsCall, StubError: sp.StubError, RealLogger: sp.RealLogger, Redirect: sp.Redirect}
+			RaceFields: sp.RaceFields, NoOps: sp.NoOps, TimerAnyTime: sp.TimerAnyTime, Verbose: *verbose, DumpDir: *dump, Seed: *seed, SelfCheck: *selfcheck, RestartEvery: *restart, SkipInit: sp.SkipInit, GoAsCall: sp.GoAsCall, ConcretizeDiv: sp.ConcretizeDiv, StubError: sp.StubError, RealLogger: sp.RealLogger, Redirect: sp.Redirect}
 		if sp.BudgetS > 0 {
 			c.Deadline = time.Now().Add(time.Duration(sp.BudgetS) * time.Second)
 		}
